@@ -38,14 +38,14 @@ THEOREMS = [
     "BeyondVerif.C11.pwl_value_unique",
     "BeyondVerif.C11.mask_exact_hit",
     "BeyondVerif.C11.mask_two_pi_value_serves_at_zero",
-    "BeyondVerif.C11.mask_given_at_creation_is_stored_partial",
+    "BeyondVerif.C11.mask_given_at_creation_is_stored",
     "BeyondVerif.C11.no_mask_given_is_no_mask",
     "BeyondVerif.C11.mask_read_is_function_of_current_table",
     "BeyondVerif.C11.mask_assignment_replaces_table",
     "BeyondVerif.C11.mask_after_any_history_is_pwl_interp",
-    "BeyondVerif.C11.mask_given_at_creation_is_pwl_interp_partial",
+    "BeyondVerif.C11.mask_given_at_creation_is_pwl_interp",
     "BeyondVerif.C11W.earth_radius_is_not_wgs84",
-    "BeyondVerif.C11W.mask_given_as_ndarray_is_rejected",
+    "BeyondVerif.C11W.mask_given_as_ndarray_is_stored",
 ]
 LEVEL_TEXT = ("Lean theorems over R about formulas translated from the Python source on every run (stations._geodetic_to_cartesian, the topocentric "
               "matrix expression of orient.TopocentricOrientation with rot2/rot3 of utils/matrix.py, forms._cartesian_to_spherical, the four "
@@ -55,7 +55,7 @@ LEVEL_TEXT = ("Lean theorems over R about formulas translated from the Python so
               "modelled statement for statement, its formulas — the reduction modulo 2 pi, the scan test, the wrap x0, the returned expression — "
               "translated from the source) equals the piecewise-linear interpolant of the table, the 2 pi value serving at 0, for all strictly increasing "
               "tables ending at 2 pi and all azimuths; the way from the table GIVEN to the table read is inside the model: the `mask=` handling of "
-              "TopocentricFrame.__init__ and create_station is translated from the source (a list/tuple of rows is stored unchanged), a state machine "
+              "TopocentricFrame.__init__ and create_station is translated from the source (a list/tuple of rows or a 2xN ndarray is stored unchanged), a state machine "
               "describes assignment, in-place writes and reads of station.mask, and for every creation argument and every history whose current table "
               "follows the convention the next read is the interpolant of that table (reads keep nothing, change nothing).")
 LEVEL_NOTE = ("R -> double gap covered only by tolerance-bounded correspondence; the control flow of get_mask (extraction refuses another statement shape), "
@@ -77,7 +77,7 @@ ASSUMPTIONS = [
     "checked by the oracle to the precision of the input",
     "the coordinates are geodetic coordinates in the station's parent frame — an Earth-fixed frame: WGS84 = ITRF (default), PEF, TIRF (all generated); theorems and model "
     "work in that frame; equatorial=True (axes of EME2000 at the same place) is checked by the oracle only",
-    "a mask is handed over at creation as a list / tuple of two rows (lists, tuples, arrays, numpy scalars, ints) or assigned later as a 2xN float array; reads use Python / numpy real scalars",
+    "a mask is handed over at creation as a list / tuple of two rows (lists, tuples, arrays, numpy scalars, ints) or as a 2xN float ndarray, or assigned later as a 2xN float array; reads use Python / numpy real scalars",
     "pole motion / Earth-orientation rotations between ITRF and the inertial frames belong to C02; here only expand() and the rest state of the station enter",
     "theorems are over R; the implementation computes in IEEE doubles",
     "mask tables follow the documented convention (strictly increasing azimuths, last azimuth 2 pi); other tables are modelled and compared in the correspondence but no theorem speaks about them",
@@ -88,10 +88,7 @@ NOT_COVERED = ["the clause 'WGS-84' itself: station_on_ellipsoid_partial is abou
                "equatorial=True stations: no theorem (oracle: same place, at rest, axes of EME2000)",
                "light-time / signal-path effects in Range and Doppler (the code has none; the measures are instantaneous geometric quantities)",
                "visibility() iteration and the AOS/LOS/mask listeners (C10)"]
-OPEN = ["a mask handed over at the creation of the station as a numpy.ndarray (the '2D array of float' of the docstring) is rejected: `if mask` on an array raises ValueError "
-        "(known finding C11-mask-ndarray-at-creation, counter-witness C11W.mask_given_as_ndarray_is_rejected); mask_given_at_creation_is_{stored,pwl_interp}_partial are "
-        "proved for lists / tuples of rows, and mask_after_any_history_is_pwl_interp covers the array assigned afterwards",
-        "coordinates given as int8/uint8/int16/uint16 numpy arrays are converted in float16/float32 (known finding C11-station-narrow-int-dtype); the model "
+OPEN = ["coordinates given as int8/uint8/int16/uint16 numpy arrays are converted in float16/float32 (known finding C11-station-narrow-int-dtype); the model "
         "(doubles / R) does not describe that rounding, so these kinds are kept out of the correspondence and covered by the oracle only",
         "the ellipsoid has the WGS-84 flattening but the EGM-96 equatorial radius 6378136.3 m: stations are 0.7 m closer to the geocentre than WGS-84 coordinates say (known finding C11-station-ellipsoid-radius); all theorems are stated for the constants as they are in constants.py"]
 RULE = ("correspondence: stations on a lat/lon/alt grid (all quadrants, near-polar) + random, created through create_station from coordinates of 14 numeric kinds "
@@ -179,8 +176,9 @@ def typed_coords(kind, lat, lon, alt):
 
 
 # ways a caller hands a horizon mask over when the station is created (`mask=` of create_station / TopocentricFrame):
-# kind of object x entry point.  "seq" kinds are stored (np.asarray), None / empty sequences mean "no mask", an ndarray is
-# rejected by the `if mask` truth-value test (ValueError; known limitation, NOT_COVERED).
+# kind of object x entry point.  "seq" and "arr" kinds are stored (np.asarray), None / empty sequences mean "no mask".  (Until /repo
+# e7f290a an ndarray was rejected by an `if mask` truth-value test — fixed finding C11-mask-ndarray-at-creation; the oracle family
+# `mask-given-rejected-ndarray-truth-value` stays alive.)
 MASK_OBJ_KINDS = {"list": "seq", "tuple": "seq", "list-of-arrays": "seq", "tuple-of-lists": "seq", "list-np-scalars": "seq", "list-int-elev": "seq",
                   "ndarray": "arr", "ndarray-F-order": "arr", "none": "absent", "omitted": "absent", "empty-list": "eseq", "empty-tuple": "eseq"}
 MASK_ENTRIES = ["create_station", "create_station-positional", "TopocentricFrame", "TopocentricFrame-positional"]
@@ -869,6 +867,17 @@ def check_mask_given(out, rng, okind, entry, az, el, ops, mkind="", coords=(10.0
 PARENT_NAME = {"default": "ITRF", "WGS84": "ITRF", "ITRF": "ITRF", "PEF": "PEF", "TIRF": "TIRF"}
 
 
+def creation_failure(out, e, inp_s, mgiven, entry, violates=False):
+    """a station of a sweep could not be created with the options it was given: a failure of the oracle (or a disagreement), never a harness error"""
+    arr = mgiven is not None and MASK_OBJ_KINDS[mgiven[0]] == "arr" and isinstance(e, ValueError) and "truth value of an" in str(e)
+    fam = "mask-given-rejected-ndarray-truth-value" if arr else ("mask-given-rejected-" + mgiven[0] if mgiven is not None else "station-creation-raises")
+    inp = dict(inp_s)
+    if mgiven is not None:
+        inp.update(okind=mgiven[0], entry=entry, given=[list(mgiven[1]), list(mgiven[2])], ops=[])
+    out.fail(fam, "create_station / TopocentricFrame raises for valid coordinates and options" + (f" (mask given as {mgiven[0]} through {entry})" if mgiven is not None else ""),
+             inp, observed=repr(e), expected="a station", **({"violates_property": True} if violates else {}))
+
+
 def station_options(rng, k):
     """(parent, mask_given, entry) for the k-th station of a sweep: the first ones are plain create_station(name, coords) calls"""
     if k < 3 or rng.random() < 0.4:
@@ -876,7 +885,7 @@ def station_options(rng, k):
     parent = rng.choice(PARENTS)
     mgiven, entry = None, "create_station"
     if rng.random() < 0.6:
-        okind = rng.choice([k_ for k_, c in MASK_OBJ_KINDS.items() if c != "arr"])
+        okind = rng.choice(list(MASK_OBJ_KINDS))
         az, el, _mk = gen_mask(rng)
         mgiven, entry = (okind, az, el), rng.choice(MASK_ENTRIES)
     return parent, mgiven, entry
@@ -946,7 +955,11 @@ def oracle(ctx, widened):
         # every option of create_station: the Earth-fixed frame the coordinates are given in, a mask handed over at creation
         parent, mgiven, entry = station_options(rng, k)
         pframe = PARENT_NAME[parent]
-        st = new_station(lat_d, lon_d, alt, kind=ckind, parent=parent, mask_given=mgiven, entry=entry)
+        try:
+            st = new_station(lat_d, lon_d, alt, kind=ckind, parent=parent, mask_given=mgiven, entry=entry)
+        except Exception as e:  # noqa: BLE001
+            creation_failure(out, e, {"latlonalt_deg_m": [lat_d, lon_d, alt], "coords_kind": ckind, "parent": parent}, mgiven, entry)
+            continue
         lat_d, lon_d, alt = st.c11_deg
         lat, lon = math.radians(lat_d), math.radians(lon_d)
         inp_s = {"latlonalt_deg_m": [lat_d, lon_d, alt], "coords_kind": ckind}
@@ -983,7 +996,7 @@ def oracle(ctx, widened):
             wgs_done += 1
             check_wgs84(out, st, inp_s, a, f, lat, lon, alt, date)
         # the mask handed over with the coordinates is the station's mask
-        if mgiven is not None and MASK_OBJ_KINDS[mgiven[0]] == "seq":
+        if mgiven is not None and MASK_OBJ_KINDS[mgiven[0]] in ("seq", "arr"):
             _o, (taz, tel) = mask_object(*mgiven)
             for x, akind in gen_azimuths(rng, taz, 3) + segment_azimuths(taz)[:len(taz)][-1:]:
                 try:
@@ -1108,7 +1121,8 @@ inductive PyTruth where
   | raises
 
 /-- Python's `bool(mask)`: `None` and empty sequences are false, a sequence of two rows is true (whatever the rows hold), a numpy array
-with 0 or with 2 and more elements raises ValueError ("the truth value of an array … is ambiguous") -/
+with 0 or with 2 and more elements raises ValueError ("the truth value of an array … is ambiguous").  (Not used by the current
+`TopocentricFrame.__init__`, which tests `mask is not None and len(mask)`; kept so that a return of `if mask` is translated as what it is.) -/
 def maskTruth : MaskArg → PyTruth
   | .absent => .isFalse
   | .emptySeq => .isFalse
@@ -1487,7 +1501,11 @@ def correspondence(ctx):
         # every option of create_station: the Earth-fixed frame the coordinates are given in (the model works in that frame), a mask handed over at creation
         parent, mgiven, entry = station_options(rng, k)
         pframe = PARENT_NAME[parent]
-        st = new_station(lat_d, lon_d, alt, kind=ckind, parent=parent, mask_given=mgiven, entry=entry)
+        try:
+            st = new_station(lat_d, lon_d, alt, kind=ckind, parent=parent, mask_given=mgiven, entry=entry)
+        except Exception as e:  # noqa: BLE001
+            creation_failure(out, e, {"latlonalt_deg_m": [lat_d, lon_d, alt], "coords_kind": ckind, "parent": parent}, mgiven, entry)
+            continue
         lat_d, lon_d, alt_d = st.c11_deg             # exact values of what was passed to create_station
         lat, lon, alt = (float(c) for c in st.latlonalt)   # what the code made of them (radians, metres)
         inp_s = {"latlonalt_deg_m": [lat_d, lon_d, alt_d], "coords_kind": ckind}
@@ -1638,12 +1656,12 @@ def correspondence(ctx):
             az, el, mkind = [], [], "empty"
         cls = MASK_OBJ_KINDS[okind]
         _o, (taz, tel) = mask_object(okind, az, el)
-        ops = gen_mask_history(rng, taz if cls == "seq" else [], tel if cls == "seq" else [], rng.choice([0, 1, 2, 3, 5]), strict=False)
+        ops = gen_mask_history(rng, taz if cls in ("seq", "arr") else [], tel if cls in ("seq", "arr") else [], rng.choice([0, 1, 2, 3, 5]), strict=False)
         parent = rng.choice(PARENTS)
         equat = rng.random() < 0.12
         try:
             stn = new_station(rng.uniform(-80, 80), rng.uniform(-180, 180), rng.uniform(0, 3000), mask_given=(okind, az, el), entry=entry, parent=parent, equatorial=equat)
-        except ValueError:
+        except Exception:  # noqa: BLE001
             real = "raises"
         else:
             s0 = real_store(stn)
@@ -1673,7 +1691,7 @@ def correspondence(ctx):
         inp = {"okind": okind, "entry": entry, "parent": parent, "equatorial": equat, "given": [list(az), list(el)], "ops": [list(o) for o in ops]}
         add(req, lambda rep, real=real, inp=inp: run_check(rep, real, inp))
         out.count(key=req, kind="mask-life", okind=okind, entry=entry, table=mkind, n_ops=f"{len(ops) // 10 * 10}+", npoints=len(az),
-                  nontrivial=cls == "seq" or any(o[0] == "A" for o in ops))
+                  nontrivial=cls in ("seq", "arr") or any(o[0] == "A" for o in ops))
         for o in ops:
             out.tally("mask-life-op=" + o[0] + (":" + o[2] if o[0] == "Q" else ""))
     if prev[0] is not None:
